@@ -575,6 +575,10 @@ pub fn run_c09(thorough: bool) -> i32 {
     r.grid("c09-injectivity-accepted-pairs", evals, seen.len() as u64, acc_channels.len() as u64, (channel_menu().len() - acc_channels.len()) as u64, vec![json!({"accepted_channels": acc_channels, "accepted_senders": acc_senders.len(), "ordered_pairs_compared": pairs})], viols);
     r.require(acc_channels.len() >= 6 && acc_senders.len() >= 20, "C09 injectivity grid needs accepted channels and senders");
 
+    // (2b) the contract's own sender check under every spelling of channel and native addresses that
+    //      UpdateConfig accepts: exactly the account derived from the strings as configured is accepted
+    c09_execute_grid(&mut r);
+
     // (3) end to end: every Rewards / Deliver of the search goes through the simulator's own ibc-hooks;
     //     after updates of channel / staker / collector the newly derived account is accepted, the old refused
     for p in probe_checks::plans("C08", thorough) {
@@ -593,6 +597,94 @@ pub fn run_c09(thorough: bool) -> i32 {
         r.run_scenario(&sc, lim, &["c09:new_staker_hook_accepted_old_refused", "c09:new_reward_hook_accepted_old_refused", "c09:new_channel_hook_accepted_old_refused", "HookReceiveRewards:ok", "HookReceiveUnstakedTokens:ok"]);
     }
     r.finish()
+}
+
+/// For every accepted spelling (lower / upper case, 20 / 32 bytes) of the staker and collector addresses and
+/// every accepted channel spelling, configure them through UpdateConfig and call ReceiveRewards /
+/// ReceiveUnstakedTokens from the accounts derived, independently, from each spelling variant. Only the
+/// account of the strings as configured may pass the sender check.
+fn c09_execute_grid(r: &mut Runner) {
+    let k = K::k0();
+    let base = seed_submitted(&k);
+    let due = base.m.batches.values().find(|b| b.status == MStatus::Submitted).map(|b| (b.id, b.due, b.expected.unwrap_or(1)));
+    let Some((bid, bdue, bexp)) = due else {
+        r.require(false, "C09 execute grid needs a submitted batch");
+        return;
+    };
+    let addr_spellings = |label: &str| -> Vec<String> {
+        let a20 = bech::addr(&k.native_prefix, label, 20);
+        let a32 = bech::addr(&k.native_prefix, label, 32);
+        vec![a20.clone(), a20.to_uppercase(), a32.clone(), a32.to_uppercase()]
+    };
+    let channels = ["channel-0", "channel-7", "channel-007", "channel-42", "channel-18446744073709551615"];
+    let mut n = 0u64;
+    let mut acc = 0u64;
+    let mut viols: V = vec![];
+    let im = instantiate_msg(&k);
+    for ch in channels {
+        for st in addr_spellings("c09-staker") {
+            for co in addr_spellings("c09-collector") {
+                let mut s = base.clone();
+                let mut nc = im.native_chain_config.clone();
+                nc.staker_address = st.clone();
+                nc.reward_collector_address = co.clone();
+                let mut pc = im.protocol_chain_config.clone();
+                pc.ibc_channel_id = ch.to_string();
+                let ap = s.apply(&exec(&adm(), ExecuteMsg::UpdateConfig { native_chain_config: Some(nc), protocol_chain_config: Some(pc), protocol_fee_config: None, monitors: None, batch_period: None }, vec![]));
+                n += 1;
+                if !ap.out.ok {
+                    continue;
+                }
+                s.apply(&advance(bdue.max(s.w.time + 1)));
+                let cfg = s.w.config();
+                // what the configuration now says, verbatim
+                let (cst, cco, cch) = (cfg.native_chain_config.staker_address.to_string(), cfg.native_chain_config.reward_collector_address.to_string(), cfg.protocol_chain_config.ibc_channel_id.clone());
+                let variants = |a: &str| -> Vec<String> {
+                    let mut v = vec![a.to_string(), a.to_lowercase(), a.to_uppercase()];
+                    v.sort();
+                    v.dedup();
+                    v
+                };
+                let chans: Vec<String> = {
+                    let num = cch.trim_start_matches("channel-").trim_start_matches('0');
+                    let mut v = vec![cch.clone(), format!("channel-{}", if num.is_empty() { "0" } else { num }), format!("channel-0{}", cch.trim_start_matches("channel-")), "channel-77".to_string()];
+                    v.sort();
+                    v.dedup();
+                    v
+                };
+                for (label, configured, msg, funds) in [
+                    ("ReceiveUnstakedTokens", cst.clone(), ExecuteMsg::ReceiveUnstakedTokens { batch_id: bid }, vec![(sd(), bexp)]),
+                    ("ReceiveRewards", cco.clone(), ExecuteMsg::ReceiveRewards {}, vec![(sd(), 50u128)]),
+                ] {
+                    let exact = bech::hook_sender(&cch, &configured, PROTO_PREFIX);
+                    for c2 in &chans {
+                        for a2 in variants(&configured) {
+                            let acct = bech::hook_sender(c2, &a2, PROTO_PREFIX);
+                            let mut w = s.w.clone();
+                            for (d, a) in &funds {
+                                w.credit(&acct, d, *a);
+                            }
+                            let out = w.exec(&acct, msg.clone(), &funds);
+                            n += 1;
+                            let case = json!({"configured_channel": cch, "configured_address": configured, "sender_channel": c2, "sender_address": a2, "message": label});
+                            let refused_as_unauthorised = out.err.as_deref().map(|e| e.contains("Unauthorized")).unwrap_or(false);
+                            if acct == exact {
+                                if out.ok {
+                                    acc += 1;
+                                } else if refused_as_unauthorised {
+                                    viols.push((viol("C09", &format!("execute.refused_configured_pair.{label}"), format!("{label} from the ibc-hooks account of ({cch}, {configured}) as configured was refused: {:?}", out.err)), case));
+                                }
+                            } else if out.ok {
+                                viols.push((viol("C09", &format!("execute.accepted_other_pair.{label}"), format!("{label} accepted from the account of ({c2}, {a2}) while ({cch}, {configured}) is configured")), case));
+                            }
+                        }
+                    }
+                }
+            }
+        }
+    }
+    r.grid("c09-execute: accepted spellings of channel x staker x collector, sender accounts of every spelling variant", n, 2, acc, n - acc, vec![json!({"configured_channel": "channel-007", "configured_address": "CELESTIA1...", "sender_channel": "channel-7"})], viols);
+    r.require(acc >= 40, "the C09 execute grid must see accepted deliveries");
 }
 
 // ============================================================================================ C11
